@@ -1,7 +1,7 @@
 (** C05 — the ordered map is a correct ordered dictionary under every
     operation sequence.  Only statements; every proof is [exact lemma]. *)
 From Coq Require Import String List Arith Bool.
-From GP Require Import Model.OMap Proofs.OMapProofs Proofs.OMapFromItems.
+From GP Require Import Model.OMap Proofs.OMapProofs Proofs.OMapFromItems Proofs.SmallLaws.
 Import ListNotations.
 
 Section C05.
@@ -31,6 +31,15 @@ Section C05.
   Proof. exact (OMapFromItems.from_items_inv V). Qed.
   Theorem from_items_refines : forall l, abs (from_items V l) = spec_from_items V l.
   Proof. exact (OMapFromItems.from_items_refines V). Qed.
+
+  (** the list model is a dictionary: a key set twice is one entry with the last value; lookups of other keys are
+      unaffected *)
+  Theorem p_set_same_key_twice : forall k v1 v2 (l : pairs V), p_set k v2 (p_set k v1 l) = p_set k v2 l.
+  Proof. exact (SmallLaws.p_set_same_key_twice V). Qed.
+  Theorem p_set_lookup : forall k v (l : pairs V), p_get k (p_set k v l) = Some v.
+  Proof. exact (SmallLaws.p_set_lookup V). Qed.
+  Theorem p_set_keeps_others : forall k k' v (l : pairs V), k <> k' -> p_get k' (p_set k v l) = p_get k' l.
+  Proof. exact (SmallLaws.p_set_keeps_others V). Qed.
 
   (** the list model is a dictionary: keys stay distinct *)
   Theorem keys_distinct : forall m, Inv V m -> NoDup (map fst (abs m)).
@@ -77,6 +86,9 @@ Proof. vm_compute. reflexivity. Qed.
 Print Assumptions inv_reachable.
 Print Assumptions from_items_inv.
 Print Assumptions from_items_refines.
+Print Assumptions p_set_same_key_twice.
+Print Assumptions p_set_lookup.
+Print Assumptions p_set_keeps_others.
 Print Assumptions abs_refines.
 Print Assumptions step_refines.
 Print Assumptions keys_distinct.
